@@ -32,12 +32,15 @@ package dns
 
 //@ func CountLabel [C19]
 //@   ensures len(s) > 0 && !(len(s) == 1 && s[0] == '.') ==> labels == nsep(s, len(s)-1) + 1
+//@   ensures dot: len(s) == 1 && s[0] == '.' ==> labels == 0
+//@   ensures pos: !(len(s) == 1 && s[0] == '.') ==> labels >= 1
 //@   loop 1 invariant 0 <= off && 0 <= labels && (len(s) > 0 ==> off <= len(s)-1 && labels == nsep(s, off))
 //@   loop 1 decreases len(s) - off
 //@   pure
 
 //@ func equal [C19 C20 C14]
 //@   ensures ret0 == (len(a) == len(b) && (forall k in 0..len(a) :: lower(a[k]) == lower(b[k])))
+//@   ensures leq: ret0 == labeq(a, 0, len(a), b, 0, len(b))
 //@   loop 1 invariant 0-1 <= i && i < la && la == len(a) && lb == len(b) && la == lb
 //@   loop 1 invariant forall k in i+1..la :: lower(a[k]) == lower(b[k])
 //@   loop 1 decreases i + 1
@@ -64,10 +67,16 @@ package dns
 //@   ensures idx:  len(s) > 0 && !(len(s) == 1 && s[0] == '.') ==> (forall m in 1..len(ret0) :: sep(s, ret0[m]-1) && nsep(s, ret0[m]) == m && 0 < ret0[m] && ret0[m] <= len(s)-1)
 //@   ensures mono: forall m in 0..len(ret0)-1 :: ret0[m] < ret0[m+1]
 //@   ensures off0: sliceoff(ret0) == 0
+//@   ensures nonempty: !(len(s) == 1 && s[0] == '.') ==> len(ret0) >= 1 && ret0[0] == 0
+//@   ensures empty: len(s) == 0 ==> len(ret0) == 1
+//@   ensures gap:  len(s) > 0 ==> (forall m in 0..len(ret0)-1 :: (forall k in ret0[m]..ret0[m+1]-1 :: !sep(s, k)))
+//@   ensures lastgap: len(s) > 0 && ret0 != nil ==> (forall k in ret0[len(ret0)-1]..len(s) :: !sep(s, k))
 //@   ensures fresh: fresh(ret0)
 //@   loop 1 invariant 1 <= len(idx) && idx[0] == 0 && 0 <= off && (len(s) > 0 ==> off <= len(s)-1) && fresh(idx)
 //@   loop 1 invariant lastoff: idx[len(idx)-1] == off
+//@   loop 1 invariant len(s) == 0 ==> len(idx) == 1
 //@   loop 1 invariant mono: forall m in 0..len(idx)-1 :: idx[m] < idx[m+1]
+//@   loop 1 invariant gap:  len(s) > 0 ==> (forall m in 0..len(idx)-1 :: (forall k in idx[m]..idx[m+1]-1 :: !sep(s, k)))
 //@   loop 1 invariant len(s) > 0 ==> len(idx) == nsep(s, off) + 1
 //@   loop 1 invariant seps: len(s) > 0 ==> (forall m in 1..len(idx) :: sep(s, idx[m]-1))
 //@   loop 1 invariant ord:  len(s) > 0 ==> (forall m in 1..len(idx) :: nsep(s, idx[m]) == m)
@@ -86,3 +95,43 @@ package dns
 //@   ensures last:  len(labels) > 0 ==> start(labels[len(labels)-1], s) + len(labels[len(labels)-1]) == (IsFqdnSpec(s) ? len(s) - 1 : len(s))
 //@   loop 1 invariant len(labels) == rangeindex + 1 && begin == idx[rangeindex+1] && 0 <= begin && begin <= len(s)-1 && rangeindex + 1 <= len(idx) - 1
 //@   loop 1 invariant sub: forall m in 0..len(labels) :: issub(labels[m], s) && start(labels[m], s) == idx[m] && start(labels[m], s) + len(labels[m]) == idx[m+1] - 1
+
+// ---- common-suffix count ----------------------------------------------------------------------------
+// lbeg(s, e): start of the label that ends (exclusively) at e.  labeq: two label texts are equal ignoring
+// ASCII case.  csuf(a, ea, b, eb): number of trailing labels of a[:ea] and b[:eb] that are pairwise labeq.
+//@ spec lbeg(s seq, e int) int = e <= 0 ? 0 : (sep(s, e-1) ? e : lbeg(s, e-1)) decreases e
+//@ spec labeq(a seq, pa int, ea int, b seq, pb int, eb int) bool = ea - pa == eb - pb && (forall k in 0..ea-pa :: lower(a[pa+k]) == lower(b[pb+k]))
+//@ spec csuf(a seq, ea int, b seq, eb int) int = !labeq(a, lbeg(a, ea), ea, b, lbeg(b, eb), eb) ? 0 : ((lbeg(a, ea) <= 0 || lbeg(b, eb) <= 0) ? 1 : 1 + csuf(a, lbeg(a, ea) - 1, b, lbeg(b, eb) - 1)) decreases ea
+
+//@ lemma labeq_shift(s seq, p int, e int, t seq, q int, f int): labeq(s[p:e], 0, e - p, t[q:f], 0, f - q) == labeq(s, p, e, t, q, f) [C19]
+//@ lemma labeq_dot(s seq, p int, e int, t seq, q int, f int): (p <= e && q <= f && s[e] == '.' && t[f] == '.') ==> labeq(s, p, e + 1, t, q, f + 1) == labeq(s, p, e, t, q, f) [C19]
+//@ lemma sep_dot(s seq, i int): sep(s, i) ==> (s[i] == '.' && 0 <= i && i < len(s) - 1) [C19]
+//@ lemma lbeg_skip(s seq, p int, e int) induct e: (0 <= p && p <= e && (forall k in p..e :: !sep(s, k)) && (p == 0 || sep(s, p-1))) ==> lbeg(s, e) == p [C19]
+//@ lemma lbeg_range(s seq, e int) induct e: 0 <= lbeg(s, e) && (e >= 0 ==> lbeg(s, e) <= e) [C19]
+
+//@ spec isdot(s seq) bool = len(s) == 1 && s[0] == '.'
+
+//@ func CompareDomainName [C19]
+//@   opt opaque = labeq lbeg sep nsep escd lower
+//@   apply at "if equal(s1[l1[j1]:], s2[l2[j2]:])" labeq_shift(s1, l1[j1], len(s1), s2, l2[j2], len(s2))
+//@   apply at "if equal(s1[l1[i1]:l1[j1]], s2[l2[i2]:l2[j2]])" labeq_shift(s1, l1[i1], l1[j1], s2, l2[i2], l2[j2])
+//@   apply at "if equal(s1[l1[i1]:l1[j1]], s2[l2[i2]:l2[j2]])" labeq_dot(s1, l1[i1], l1[j1] - 1, s2, l2[i2], l2[j2] - 1)
+//@   apply at "if equal(s1[l1[i1]:l1[j1]], s2[l2[i2]:l2[j2]])" sep_dot(s1, l1[j1] - 1)
+//@   apply at "if equal(s1[l1[i1]:l1[j1]], s2[l2[i2]:l2[j2]])" sep_dot(s2, l2[j2] - 1)
+//@   apply at "if equal(s1[l1[j1]:], s2[l2[j2]:])" lbeg_skip(s1, l1[j1], len(s1))
+//@   apply at "if equal(s1[l1[j1]:], s2[l2[j2]:])" lbeg_skip(s2, l2[j2], len(s2))
+//@   apply at "if equal(s1[l1[i1]:l1[j1]], s2[l2[i2]:l2[j2]])" lbeg_skip(s1, l1[i1], l1[j1] - 1)
+//@   apply at "if equal(s1[l1[i1]:l1[j1]], s2[l2[i2]:l2[j2]])" lbeg_skip(s2, l2[i2], l2[j2] - 1)
+//@   ensures root: (isdot(s1) || isdot(s2)) ==> n == 0
+//@   ensures cnt:  len(s1) > 0 && len(s2) > 0 && !isdot(s1) && !isdot(s2) ==> n == csuf(s1, len(s1), s2, len(s2))
+//@   ensures bound: len(s1) > 0 && len(s2) > 0 && !isdot(s1) && !isdot(s2) ==> 0 <= n && n <= nsep(s1, len(s1)-1) + 1 && n <= nsep(s2, len(s2)-1) + 1
+//@   loop 1 invariant i1 == j1 - 1 && i2 == j2 - 1 && 0 <= j1 && j1 < len(l1) && 0 <= j2 && j2 < len(l2)
+//@   loop 1 invariant n == len(l1) - j1 && n == len(l2) - j2
+//@   loop 1 invariant rest: len(s1) > 0 && len(s2) > 0 ==> csuf(s1, len(s1), s2, len(s2)) == n + ((i1 < 0 || i2 < 0) ? 0 : csuf(s1, l1[j1] - 1, s2, l2[j2] - 1))
+//@   loop 1 decreases j1
+
+//@ func IsSubDomain [C19 C17]
+//@   ensures rootp: isdot(parent) ==> ret0
+//@   ensures sub:   len(parent) > 0 && len(child) > 0 && !isdot(parent) && !isdot(child) ==> ret0 == (csuf(parent, len(parent), child, len(child)) == nsep(parent, len(parent)-1) + 1)
+//@   ensures rootc: len(parent) > 0 && !isdot(parent) && isdot(child) ==> !ret0
+//@   pure
